@@ -1620,6 +1620,14 @@ func (e *bEngine) verify(caseSpec string) {
 	if returns == 0 {
 		panic(verr("no path reaches a return (every path ends in a panic or an unsupported construct)"))
 	}
+	if b := con.Raw["bounded"]; len(b) > 0 {
+		for _, o := range e.obls {
+			o.Bounded = strings.TrimSpace(b[0])
+			if o.Bounded == "" {
+				o.Bounded = "bounded instance"
+			}
+		}
+	}
 	if !reachable {
 		o := &Obligation{Name: e.name + "/vacuity:returns", Func: e.name, Kind: "vacuity", Goal: TFalse, File: con.File, Native: true}
 		o.Assume = lastPath
